@@ -38,6 +38,8 @@ K03 = [
     Skeleton("e07_while_break", {"main.py": "def fun({0}):\n    {1} = 0\n    while True:\n        {1} += 1\n        if {1} > {0}:\n            break\n    return {1}\nprint(fun(2))\n"}),
     Skeleton("e08_multiline_expr", {"main.py": "def fun({0}, {1}):\n    {2} = ({0} +\n           {1}) * 2\n    return {2}\nprint(fun(1, 2))\n"}),
     Skeleton("e09_generator", {"main.py": "def fun({0}):\n    {1} = 0\n    while {1} < {0}:\n        yield {1}\n        {1} += 1\nprint(list(fun(3)))\n"}),
+    Skeleton("e14_similar_in_elif_and_else", {"main.py": "def fun({0}):\n    if {0} > 1:\n        {1} = {0} * 2\n    elif {0} > 0:\n        {1} = {0} * 2 + 1\n    else:\n        {1} = 0 - {0} * 2\n    return {1}\nprint(fun(2), fun(1), fun(0))\n"}),
+    Skeleton("e15_yield_from_in_region", {"main.py": "def fun({0}):\n    {1} = 1\n    yield from range({0})\n    yield {1}\nprint(list(fun(2)))\n"}),
     Skeleton("e10_global_and_local", {"main.py": "{0} = 10\ndef fun({1}):\n    {2} = {1} + {0}\n    {3} = {2} * 2\n    return {3} - {0}\nprint(fun(1))\n"}),
 ]
 
